@@ -22,7 +22,7 @@ func init() {
 	replayers["C13/seq"] = func(c *Ctx, raw json.RawMessage) string {
 		var cs seqCase
 		json.Unmarshal(raw, &cs)
-		return c13EvalSeq(sigma(cs.Full, cs.Invalid), cs.Ops, nil)
+		return c13EvalSeq(sigmaNamed(cs.Alpha, cs.Full, cs.Invalid), cs.Ops, nil)
 	}
 }
 
